@@ -13,6 +13,8 @@
 //   check:   hi | lo | err | timeout        compact: ok | err | timeout
 //   commit:  ok | ro | err | timeout        cleanup: ok | err | timeout      ("na" = not expected)
 // "timeout" = the handler does not answer until the execution is over.
+// A further line {"ev":"round","s":[...]} calls Topology.Vacuum again on the same topology with new
+// outcomes (meant for rounds without "timeout").
 package main
 
 import (
@@ -57,6 +59,33 @@ type exec struct {
 	hung    int32
 }
 
+func (ex *exec) setScript(v interface{}) {
+	var sc []map[string]string
+	for _, x := range tr.List(v) {
+		m := map[string]string{}
+		if mm, ok := x.(map[string]interface{}); ok {
+			for k, v := range mm {
+				m[k], _ = v.(string)
+			}
+		}
+		sc = append(sc, m)
+	}
+	ex.mu.Lock()
+	ex.script = sc
+	ex.mu.Unlock()
+}
+
+func (ex *exec) outcome(r int, op string) string {
+	ex.mu.Lock()
+	defer ex.mu.Unlock()
+	if r-1 < len(ex.script) {
+		if o, ok := ex.script[r-1][op]; ok {
+			return o
+		}
+	}
+	return "na"
+}
+
 func (ex *exec) emit(e tr.Ev) {
 	ex.mu.Lock()
 	defer ex.mu.Unlock()
@@ -96,10 +125,8 @@ func (s *fakeVS) handle(ctx context.Context, vid uint32, op string) (string, err
 	out := "na"
 	if vid == byVid {
 		out = map[string]string{"check": "lo", "compact": "ok", "commit": "ok", "cleanup": "ok"}[op]
-	} else if s.r-1 < len(ex.script) {
-		if o, ok := ex.script[s.r-1][op]; ok {
-			out = o
-		}
+	} else {
+		out = ex.outcome(s.r, op)
 	}
 	if out == "na" {
 		out = map[string]string{"check": "lo", "compact": "ok", "commit": "ok", "cleanup": "ok"}[op]
@@ -217,15 +244,7 @@ func runExec(sl *slot, script []tr.Ev) []tr.Ev {
 		deadline = 10
 	}
 	ex := &exec{release: make(chan struct{})}
-	for _, x := range tr.List(reset["s"]) {
-		m := map[string]string{}
-		if mm, ok := x.(map[string]interface{}); ok {
-			for k, v := range mm {
-				m[k], _ = v.(string)
-			}
-		}
-		ex.script = append(ex.script, m)
-	}
+	ex.setScript(reset["s"])
 	ex.events = append(ex.events, reset)
 
 	// a fresh master topology; data nodes join and report volumes the way
@@ -269,20 +288,37 @@ func runExec(sl *slot, script []tr.Ev) []tr.Ev {
 	}
 	ex.emit(tr.Ev{"ev": "pre", "w": writables(ex.vl)})
 
-	done := make(chan string, 1)
-	go func() {
-		done <- tr.Guard(func() { topo.Vacuum(grpc.WithInsecure(), 0.3, 0) })
-	}()
-	finished := false
-	select {
-	case p := <-done:
-		finished = true
-		if p != "" {
-			ex.emit(tr.Ev{"ev": "panic", "msg": p})
+	var done chan string
+	finished := true
+	rounds := []tr.Ev{nil}
+	for _, e := range script[1:] {
+		if tr.S(e, "ev") == "round" {
+			rounds = append(rounds, e)
 		}
-	case <-time.After(time.Duration(deadline) * time.Second):
 	}
-	ex.emit(tr.Ev{"ev": "post", "w": writables(ex.vl), "done": finished})
+	for _, rd := range rounds {
+		if !finished {
+			break // the previous call of Vacuum has not returned
+		}
+		if rd != nil {
+			ex.setScript(rd["s"])
+			ex.emit(rd)
+		}
+		done = make(chan string, 1)
+		go func(done chan string) {
+			done <- tr.Guard(func() { topo.Vacuum(grpc.WithInsecure(), 0.3, 0) })
+		}(done)
+		finished = false
+		select {
+		case p := <-done:
+			finished = true
+			if p != "" {
+				ex.emit(tr.Ev{"ev": "panic", "msg": p})
+			}
+		case <-time.After(time.Duration(deadline) * time.Second):
+		}
+		ex.emit(tr.Ev{"ev": "post", "w": writables(ex.vl), "done": finished})
+	}
 	ex.mu.Lock()
 	ex.closed = true
 	evs := ex.events
